@@ -21,7 +21,7 @@ type Generator interface {
 
 type engineDef struct {
 	newEngine func() Engine
-	newGen    func(r *RNG, tier string) Generator
+	newGen    func(r *RNG, tier string, profile string) Generator
 }
 
 var engines = map[string]engineDef{}
@@ -92,6 +92,7 @@ func main() {
 		tier := fs.String("tier", "quick", "tier")
 		o := fs.String("o", "-", "output file")
 		shard := fs.Int("shard", 0, "shard index (trace ids are shard*1000000+i)")
+		profile := fs.String("profile", "", "generator profile")
 		fs.Parse(os.Args[2:])
 		def, ok := engines[*engine]
 		if !ok {
@@ -108,9 +109,9 @@ func main() {
 		for i := 0; i < *n; i++ {
 			ts := master.U64()
 			r := NewRNG(ts)
-			gen := def.newGen(r, *tier)
+			gen := def.newGen(r, *tier, *profile)
 			id := fmt.Sprintf("%d", *shard*1000000+i)
-			runTrace(out, id, fmt.Sprintf("engine=%s tseed=%d", *engine, ts), def, gen, r, nil, stats)
+			runTrace(out, id, fmt.Sprintf("engine=%s tseed=%d profile=%s", *engine, ts, *profile), def, gen, r, nil, stats)
 		}
 		out.Line("#stat " + stats.String())
 		out.Close()
